@@ -254,7 +254,7 @@ pub fn gen_signer(c: &mut Choices, nkeys: usize) -> usize {
 
 pub fn gen_op(c: &mut Choices, fam: FamId, nkeys: usize) -> Op {
     let k = gen_signer(c, nkeys);
-    match c.below(24) {
+    match c.below(26) {
         0 => Op::SetSeq { seq: gen_seq(c), k },
         1 | 2 => {
             let key = gen_any_key(c, fam);
@@ -315,6 +315,8 @@ pub fn gen_op(c: &mut Choices, fam: FamId, nkeys: usize) -> Op {
             let n = c.range(60, 230);
             Op::Insert { key: c.pick(&[&b"zz"[..], b"big", b"a"]).to_vec(), val: TVal::Bytes(vec![0x61; n]), k }
         }
+        23 => Op::Reparse { prefix: c.bool() },
+        24 => Op::Reserde,
         _ => Op::SetIp { ip: gen_ip(c), k },
     }
 }
@@ -547,6 +549,8 @@ pub fn alphabet(fam: FamId) -> Vec<Op> {
         Op::SetPublicKey { pk_of: 1, k: 1 },
         Op::Redecode,
         Op::CloneSwap,
+        Op::Reparse { prefix: false },
+        Op::Reserde,
     ];
     if fam.scheme() == Scheme::Secp {
         a.push(Op::Insert { key: b"ed25519".to_vec(), val: TVal::Bytes(vec![5; 32]), k: 0 });
